@@ -42,6 +42,16 @@ def run(tier, rep, replay=None):
     rep.add(share_lines=len(slines), share_and_gates=sum(1 for l in slines for g in l["gates"] if g[0] == 0))
     g = C.tlc_must(C.tlc(w, "Gen_CpAbe", "Gen3.cfg" if thorough else "Gen2.cfg", timeout=900), "Gen_CpAbe")
     pols = os.path.join(w, "policies.json")
+    # policies with many leaves
+    drv0 = C.go_build_driver(w, "c20")
+    lp = os.path.join(w, "large.ndjson")
+    C.run([drv0, "-large", lp, "-seed", str(C.SEED)], timeout=1500, what="c20 driver (large policies)")
+    llines = C.read_ndjson(lp)
+    lbad, _ = C.validate_lines(d, "Trace_Large", "Lines.cfg", llines)
+    for i in lbad:
+        ln = llines[i]
+        rep.violation("tkn20:large-policy:leaves=%d:%s" % (ln["leaves"], "panic" if ln["panics"] else "undecryptable"), {"observed": ln, "explain": "Encrypt accepted the policy but the satisfying key cannot decrypt (Trace_Large.tla)"})
+    rep.add(large_policies=[l["leaves"] for l in llines])
     if thorough:
         # quick enumerates <=2 leaves completely; thorough <=3 leaves (16 648 formulas), all decrypted
         args = ["-ndec", "16648", "-ntamper", "3000"]
